@@ -579,7 +579,10 @@ class H5Writer:
                 return
 
             name_map = KEY_MAP[attribute]
-            if isinstance(entity, Concatenator):
+            if (
+                isinstance(entity, Concatenator)
+                and attribute == "concatenated_attributes"
+            ):
                 entity_handle = entity_handle["Concatenated Data"]
 
                 if (
